@@ -167,8 +167,8 @@ package fsm
 //@   pure
 //@   ensures isnil(result1) ==> result0 != nil && fresh(result0) && result0.Committees == recCommittees(bytes(bz)) && result0.StakedAmount == recStake(bytes(bz))
 //@ func (*StateMachine).ConformStateToParamUpdate$2
-//@   callsite UpdateCommittees requires[snapshot] callee.oldValidator == v && v.Committees == recCommittees(bytes(value)) && v.StakedAmount == recStake(bytes(value)) && callee.newCommittees == newCommittees
-//@   callsite UpdateDelegations requires[snapshot] callee.oldValidator == v && v.Committees == recCommittees(bytes(value)) && v.StakedAmount == recStake(bytes(value)) && callee.newCommittees == newCommittees
+//@   callsite UpdateCommittees requires[snapshot] callee.oldValidator == resultof(unmarshalValidator) && callee.oldValidator.Committees == recCommittees(bytes(value)) && callee.oldValidator.StakedAmount == recStake(bytes(value))
+//@   callsite UpdateDelegations requires[snapshot] callee.oldValidator == resultof(unmarshalValidator) && callee.oldValidator.Committees == recCommittees(bytes(value)) && callee.oldValidator.StakedAmount == recStake(bytes(value))
 
 // ---- C13 / C07: a cloned state machine decodes its parameters from ITS OWN state -----------------------------------
 // Copy() gives the mempool an ephemeral state machine. The parameter caches hold pointers to decoded objects that
@@ -505,9 +505,9 @@ package fsm
 // edit-stake: only the verified signer pays, only the increase; the output address changes only when the
 // CURRENT output address signed
 //@ func (*StateMachine).HandleMessageEditStake
-//@   callsite AccountSub requires[owner] addrOf(callee.address) == bytes(msg.Signer) && callee.amountToSub == (msg.Amount > val.StakedAmount ? msg.Amount - val.StakedAmount : 0)
-//@   callsite UpdateValidatorStake requires[redirect] bytes(callee.val.Output) != bytes(val.Output) ==> bytes(msg.Signer) == bytes(val.Output)
-//@   callsite UpdateValidatorStake requires[same] bytes(callee.val.Address) == bytes(val.Address) && callee.val.StakedAmount == val.StakedAmount && callee.amountToAdd == (msg.Amount > val.StakedAmount ? msg.Amount - val.StakedAmount : 0)
+//@   callsite AccountSub requires[owner] addrOf(callee.address) == bytes(msg.Signer) && callee.amountToSub == (msg.Amount > resultof(GetValidator).StakedAmount ? msg.Amount - resultof(GetValidator).StakedAmount : 0)
+//@   callsite UpdateValidatorStake requires[redirect] bytes(callee.val.Output) != bytes(resultof(GetValidator).Output) ==> bytes(msg.Signer) == bytes(resultof(GetValidator).Output)
+//@   callsite UpdateValidatorStake requires[same] bytes(callee.val.Address) == bytes(resultof(GetValidator).Address) && callee.val.StakedAmount == resultof(GetValidator).StakedAmount && callee.amountToAdd == (msg.Amount > resultof(GetValidator).StakedAmount ? msg.Amount - resultof(GetValidator).StakedAmount : 0)
 //@   ensures[conserve] result == nil ==> drift(s) == old(drift(s)) && supTotal(s) == old(supTotal(s))
 // subsidy, order creation, DEX orders and deposits: the authorized address pays, a pool receives the same amount
 //@ func (*StateMachine).HandleMessageSubsidy
@@ -520,12 +520,12 @@ package fsm
 // order edit / delete: only the seller recorded in the STORED order is debited or refunded, by exactly the
 // change of the escrowed amount
 //@ func (*StateMachine).HandleMessageEditOrder
-//@   callsite AccountSub requires[owner] addrOf(callee.address) == orderSeller(msg.ChainId)[bytes(msg.OrderId)] && callee.amountToSub == msg.AmountForSale - order.AmountForSale && msg.AmountForSale > order.AmountForSale
-//@   callsite AccountAdd requires[refund] addrOf(callee.address) == orderSeller(msg.ChainId)[bytes(msg.OrderId)] && callee.amountToAdd == order.AmountForSale - msg.AmountForSale && msg.AmountForSale < order.AmountForSale
+//@   callsite AccountSub requires[owner] addrOf(callee.address) == orderSeller(msg.ChainId)[bytes(msg.OrderId)] && callee.amountToSub == msg.AmountForSale - resultof(GetOrder).AmountForSale && msg.AmountForSale > resultof(GetOrder).AmountForSale
+//@   callsite AccountAdd requires[refund] addrOf(callee.address) == orderSeller(msg.ChainId)[bytes(msg.OrderId)] && callee.amountToAdd == resultof(GetOrder).AmountForSale - msg.AmountForSale && msg.AmountForSale < resultof(GetOrder).AmountForSale
 //@   ensures[conserve] err == nil ==> drift(s) == old(drift(s)) && supTotal(s) == old(supTotal(s)) && stakeSum(s) == old(stakeSum(s))
 //@ func (*StateMachine).HandleMessageDeleteOrder
-//@   callsite AccountAdd requires[refund] addrOf(callee.address) == orderSeller(msg.ChainId)[bytes(msg.OrderId)] && callee.amountToAdd == order.AmountForSale
-//@   callsite PoolSub requires[escrow] callee.amountToSub == order.AmountForSale
+//@   callsite AccountAdd requires[refund] addrOf(callee.address) == orderSeller(msg.ChainId)[bytes(msg.OrderId)] && callee.amountToAdd == resultof(GetOrder).AmountForSale
+//@   callsite PoolSub requires[escrow] callee.amountToSub == resultof(GetOrder).AmountForSale
 //@   ensures[conserve] err == nil ==> drift(s) == old(drift(s)) && supTotal(s) == old(supTotal(s)) && stakeSum(s) == old(stakeSum(s))
 //@ func (*StateMachine).HandleMessageDexLimitOrder
 //@   callsite AccountSub requires[owner] addrOf(callee.address) == bytes(msg.Address) && callee.amountToSub == msg.AmountForSale
@@ -812,8 +812,8 @@ package fsm
 //@   trusted
 //@   modifies lib.EventsTracker.Events, elems(*lib.Event)
 //@ func (*StateMachine).CloseOrder
-//@   callsite PoolSub requires[escrow] order.BuyerReceiveAddress != nil && callee.id == wrap64(chainId + EscrowPoolAddend) && callee.amountToSub == order.AmountForSale
-//@   callsite AccountAdd requires[buyer] addrOf(callee.address) == bytes(order.BuyerReceiveAddress) && callee.amountToAdd == order.AmountForSale
+//@   callsite PoolSub requires[escrow] resultof(GetOrder).BuyerReceiveAddress != nil && callee.id == wrap64(chainId + EscrowPoolAddend) && callee.amountToSub == resultof(GetOrder).AmountForSale
+//@   callsite AccountAdd requires[buyer] addrOf(callee.address) == bytes(resultof(GetOrder).BuyerReceiveAddress) && callee.amountToAdd == resultof(GetOrder).AmountForSale
 //@   callsite DeleteOrder requires[sameorder] callee.orderId == orderId && callee.chainId == chainId
 //@   ensures[conserve] err == nil ==> drift(s) == old(drift(s)) && supTotal(s) == old(supTotal(s)) && stakeSum(s) == old(stakeSum(s))
 //@   ensures[paid] err == nil ==> poolSum(s) < old(poolSum(s)) || acctSum(s) == old(acctSum(s))
@@ -864,7 +864,7 @@ package fsm
 //@   trusted
 //@   pure
 //@ func (*StateMachine).DeleteFinishedUnstaking$1
-//@   callsite AccountAdd requires[tooutput] validator.Output != nil ==> addrOf(callee.address) == bytes(validator.Output) && callee.amountToAdd == validator.StakedAmount
+//@   callsite AccountAdd requires[tooutput] resultof(GetValidator).Output != nil ==> addrOf(callee.address) == bytes(resultof(GetValidator).Output) && callee.amountToAdd == resultof(GetValidator).StakedAmount
 //@   ensures[conserve] isnil(result) ==> drift(s) == old(drift(s)) && supTotal(s) == old(supTotal(s)) && poolBal() == old(poolBal())
 
 
